@@ -162,6 +162,20 @@ def r1234_writer(ctx, chk):
     if keys_loop:
         name_t, entry_t = ("elem", L.id), simp(("idx", res_param, ("elem", L.id)))
     raw = [e for e in L.effects if e[1] == "call" and e[2][0] == "mcall" and e[2][2] in ("write", "writelines") and e[0] != FALSE]
+    # inside the body the iterated collection is not empty: a conjunct that says so (`if not entries: return` in front of the loop)
+    # holds for every entry
+    def _src_nonempty(c_):
+        bases = [L.source] + ([L.source[1]] if L.source[0] == "mcall" and L.source[2] in ("items", "keys", "values") and not L.source[3] else [])
+        for b_ in bases:
+            ln_ = ("call", "len", (b_,), ())
+            if c_ in (("truthy", b_), simp(("cmp", "!=", ln_, C(0))), simp(("cmp", "<", C(0), ln_)), ("truthy", ("call", "bool", (b_,), ())), ("call", "bool", (b_,), ())):
+                return True
+        return False
+    def _strip_nonempty(c_):
+        cs_ = c_[1] if c_[0] == "and" else (c_,)
+        keep = tuple(x_ for x_ in cs_ if not _src_nonempty(x_))
+        return simp(("and", keep)) if keep else TRUE
+    raw = [(_strip_nonempty(e[0]),) + tuple(e[1:]) for e in raw]
     writes = []
     for cond, kind, call in raw:
         if call[2] == "write":
